@@ -5,10 +5,10 @@ FILES = ['Properties_C06.v']
 
 
 def run(ctx):
-    qc.run(ctx, FILES, ['c06', 'c06', 'empty'], n_quick=1200, n_thorough=40000, what='EventQueue under threads',
+    qc.run(ctx, FILES, ['c06', 'c06', 'empty'], n_quick=1200, n_thorough=40000, what='EventQueue under threads', fifo=True,
            note='conservation invariant proved in Coq for every program and schedule at the granularity of visible actions (QConcInv.v); '
                 'not mechanised: the reduction from instruction-level interleavings to visible-action interleavings, the C++ memory model')
 
 
 def replay(ctx, path):
-    return qc.replay(ctx, path)
+    return qc.replay(ctx, path, fifo=True)
